@@ -2,6 +2,7 @@ import Ivg.Model.Arc
 import Ivg.Lemmas.ArcCount
 import Ivg.Gen.Tie.RendererFields
 import Ivg.Gen.Tie.Code.Transform
+import Ivg.Gen.Tie.Code.RenderRegs
 import Ivg.Obligations
 /-!
 # C06 — elliptical arcs (PARTIAL)
@@ -204,4 +205,14 @@ end Ivg.Props.C06
   Ivg.Gen.Tie.renderer_unabsY_code_tie,
   Ivg.Gen.Tie.renderer_absVec2_code_tie,
   Ivg.Gen.Tie.renderer_recalcTransform_code_tie,
-  Ivg.Gen.Tie.renderer_recalcTransform_code_tie_frame]
+  Ivg.Gen.Tie.renderer_recalcTransform_code_tie_frame,
+  -- regenerated code (translator, Ivg/Gen/Code) = model, for all inputs: RenderRegs (Reset recomputes the transform; the selectors keep six bits)
+  Ivg.Gen.Tie.renderer_CSel_code_tie,
+  Ivg.Gen.Tie.renderer_NSel_code_tie,
+  Ivg.Gen.Tie.renderer_SetCSel_code_tie,
+  Ivg.Gen.Tie.renderer_SetNSel_code_tie,
+  Ivg.Gen.Tie.renderer_SetLOD_code_tie,
+  Ivg.Gen.Tie.renderer_SetNReg_code_tie,
+  Ivg.Gen.Tie.positiveInfinity_code_tie,
+  Ivg.Gen.Tie.renderer_Reset_code_tie,
+  Ivg.Gen.Tie.renderer_Reset_code_tie_frame]
